@@ -604,6 +604,54 @@ fn aprint(p: &AProgram, r: &ARun) {
 }
 
 fn arun_program(p: &AProgram) {
+    if p.mode == "stress" {
+        // free-running OS threads, each driving its own task to completion (block_on): the interleavings are the kernel's
+        // and the runtime's - used where the async backend does real I/O (AsyncPhysicalFS)
+        let rounds: usize = p.arg.split(',').next().and_then(|x| x.parse().ok()).unwrap_or(100);
+        let mut bad = 0;
+        let mut seen = std::collections::BTreeSet::new();
+        for round in 0..rounds {
+            SCHED.with(|s| *s.borrow_mut() = None);
+            let mut base = abuild(p);
+            let n = p.threads.len();
+            let barrier = Arc::new(std::sync::Barrier::new(n));
+            let mut joins = vec![];
+            for t in 0..n {
+                let ops = p.threads[t].clone();
+                let roots = base.roots.clone();
+                let shared = base.shared.clone();
+                let set_times = base.set_times.clone();
+                let b = barrier.clone();
+                joins.push(std::thread::spawn(move || {
+                    let mut c = ACase::new("t", false);
+                    c.roots = roots;
+                    c.shared = shared;
+                    c.set_times = set_times;
+                    b.wait();
+                    let mut out = vec![];
+                    for (i, l) in ops.iter().enumerate() {
+                        let toks: Vec<&str> = l.split(' ').collect();
+                        let r = std::panic::catch_unwind(std::panic::AssertUnwindSafe(|| futures::executor::block_on(run_op(&mut c, i, &toks))));
+                        out.push(r.unwrap_or_else(|_| "panic".to_string()));
+                    }
+                    out
+                }));
+            }
+            let res: Vec<Vec<String>> = joins.into_iter().map(|j| j.join().unwrap_or_else(|_| vec!["panic".to_string()])).collect();
+            let k = (base.roots.len() - 1).to_string();
+            let snap = futures::executor::block_on(run_op(&mut base, 9999, &["snap", &k]));
+            base.cleanup();
+            let all_ok = res.iter().all(|t| t.iter().all(|r| r.starts_with("ok")));
+            let line = format!("{} || {}", res.iter().map(|t| t.join(";")).collect::<Vec<_>>().join(" | "), snap);
+            let fresh = seen.insert(line.clone());
+            if !all_ok || fresh {
+                println!("run {} stress{} labels - :: {}", p.name, round, line);
+            }
+            if !all_ok { bad += 1; }
+        }
+        println!("done {} runs={} exhaustive=false sequential_orders=0 failed_rounds={}", p.name, rounds, bad);
+        return;
+    }
     if p.mode == "replay" {
         let prefix: Vec<usize> = p.arg.split(',').filter(|s| !s.is_empty()).map(|s| s.parse().unwrap()).collect();
         let r = arun_once(p, &prefix, false);
